@@ -379,6 +379,29 @@ Section Proofs.
        destruct pk, pb; split; reflexivity).
   Qed.
 
+
+  (** the outcome does not depend on the state of the message context: cancelling it (by the
+      handler or from outside, at any point of the handler's run) changes nothing - not the
+      result, not what is published, not the settlement *)
+  Lemma run_acts_strip_cancel acts : forall s, run_acts (strip_cancel acts) s = run_acts acts s.
+  Proof.
+    unfold run_acts. induction acts as [|a acts IH]; intros [m c]; [reflexivity|].
+    destruct a; simpl; apply IH.
+  Qed.
+
+  Lemma poison_ctx_state_irrelevant cfg c0 m0 seen pre acts out pp :
+    poison cfg c0 m0 seen (HS pre (strip_cancel acts) out) pp = poison cfg c0 m0 seen (HS pre acts out) pp.
+  Proof. unfold Poison.poison. simpl. now rewrite run_acts_strip_cancel. Qed.
+
+  Lemma in_router_ctx_state_irrelevant cfg c0 m0 pre acts out pp pk pb :
+    in_router cfg c0 m0 (HS pre (strip_cancel acts) out) pp pk pb = in_router cfg c0 m0 (HS pre acts out) pp pk pb.
+  Proof. unfold Poison.in_router. simpl hs_pre. now rewrite poison_ctx_state_irrelevant. Qed.
+
+  Lemma ctx_state_irrelevant cfg c0 m0 pre acts out pp pk pb seen :
+    poison cfg c0 m0 seen (HS pre (strip_cancel acts) out) pp = poison cfg c0 m0 seen (HS pre acts out) pp
+    /\ in_router cfg c0 m0 (HS pre (strip_cancel acts) out) pp pk pb = in_router cfg c0 m0 (HS pre acts out) pp pk pb.
+  Proof. split; [apply poison_ctx_state_irrelevant|apply in_router_ctx_state_irrelevant]. Qed.
+
   (** * the model passes the acceptors that judge implementation observations *)
   Context (eqbM : M -> M -> bool) (eqbM_refl : forall x, eqbM x x = true).
 
